@@ -301,6 +301,11 @@ func bases(c *rt.Ctx) map[string]Dir {
 		"same-bytes":  {"1_a.sql": "select 1;\n", "2_b.sql": "select 1;\n", "3_c.sql": "select 1;\n"},
 		"checkpoint":  {"1_a.sql": "select 1;\n", "2_ck.sql": "-- atlas:checkpoint\n\nselect 2;\n", "3_c.sql": "-- atlas:txmode none\n\nselect 3;\n"},
 		"five":        {"1.sql": "a;", "2.sql": "b;\n", "3.sql": "c;\nd;\n", "4.sql": "\n", "5.sql": "e"},
+		// versions whose string order is not the order of the file names, and files that share a version:
+		// every implementation of Dir must order (and hash) by NAME
+		"unpadded":     {"1_a.sql": "select 1;\n", "10_b.sql": "select 10;\n", "2_c.sql": "select 2;\n"},
+		"dotted":       {"1_a.sql": "select 1;\n", "1.1_b.sql": "select 11;\n", "1.10_c.sql": "select 110;\n", "1.2_d.sql": "select 12;\n"},
+		"same-version": {"1_b.sql": "select 1;\n", "1_a.sql": "select 2;\n", "1.sql": "select 3;\n", "1_a_c.sql": "select 4;\n"},
 	}
 	// seeded random directories
 	r := c.Rand(6, 1)
@@ -487,7 +492,7 @@ func evalCase(c *rt.Ctx, cs Case, idx int) {
 		}
 	}
 	// LocalDir leg on a deterministic sample (file system round trip; names must be representable).
-	if idx%23 == 0 {
+	if idx%23 == 0 || cs.Edit == "none" {
 		if lv, ok := validateLocal(c.Scratch, cs.Ed); ok {
 			c.Count("localdir-checked", 1)
 			if key, what := judge(cls, "local", lv, kind); key != "" {
